@@ -165,7 +165,7 @@ Proof.
   intros. unfold type_len_min, type_len_max. rewrite andb_true_iff, !Nat.leb_le. tauto.
 Qed.
 
-Lemma lang21_spec : forall s, lang21 s = true <-> Forall type_char s /\ begins_with_letter s.
+Lemma lang21_any_spec : forall s, lang21_any s = true <-> Forall type_char s /\ begins_with_letter s.
 Proof.
   intros. destruct s as [|c t]; simpl.
   - split; [discriminate|]. intros [_ [c [t [F _]]]]. discriminate.
@@ -176,54 +176,108 @@ Proof.
     + intros [F [c' [t' [E L]]]]. inversion E; subst. inversion F; subst. auto.
 Qed.
 
-(* the language each version's regex denotes (before the end anchor and the length test) *)
-Definition lang (V : version) : ustring -> bool := match V with V20 => lang20 | V21 => lang21 end.
+Lemma lower_alnum : forall c, is_lower c = true -> is_alnum c = true.
+Proof. intros. unfold is_alnum. rewrite H. reflexivity. Qed.
 
-Lemma validate_type_unfold : forall vt V s,
-  validate_type vt V s =
-  with_end (match V with V20 => end20 vt | V21 => end21 vt end) (lang V) s
-  && (type_len_min <=? List.length s)%nat && (List.length s <=? type_len_max)%nat.
-Proof. intros. destruct V; reflexivity. Qed.
+Lemma ndhb_cons_nonhyphen : forall c t, is_hyphen c = false -> ndhb (c :: t) = ndhb t.
+Proof. intros. destruct t; simpl; auto. rewrite H. reflexivity. Qed.
 
-Lemma lang_spec : forall V s, (3 <= List.length s <= 250)%nat ->
-  (lang V s = true <-> Forall type_char s /\ match sv V with Stix20 => no_double_hyphen s | Stix21 => begins_with_letter s end).
+Lemma lang21_single_char : forall s,
+  lang21_single s = match s with [] => false | c :: _ => is_lower c end && forallb is_type_char s && ndhb s.
 Proof.
-  intros V s L. destruct V; simpl.
-  - rewrite lang20_char by lia. rewrite andb_true_iff, forallb_type_char, ndhb_spec. tauto.
-  - apply lang21_spec.
+  destruct s as [|c t]; [reflexivity|].
+  unfold lang21_single. rewrite (proj1 (lang20_run_hyp t)).
+  destruct (is_lower c) eqn:L; [|reflexivity].
+  pose proof (alnum_not_hyphen c (lower_alnum c L)) as H.
+  rewrite (ndhb_cons_nonhyphen c t H). cbn [forallb]. rewrite (lower_type_char c L). reflexivity.
 Qed.
+
+Lemma lang21_single_spec : forall s,
+  lang21_single s = true <-> Forall type_char s /\ begins_with_letter s /\ no_double_hyphen s.
+Proof.
+  intros. rewrite lang21_single_char, !andb_true_iff, forallb_type_char, ndhb_spec.
+  destruct s as [|c t].
+  - split; [intros [[F _] _]; discriminate | intros [_ [[c [t [F _]]] _]]; discriminate].
+  - rewrite is_lower_spec. split.
+    + intros [[L F] N]. repeat split; auto. exists c, t. auto.
+    + intros [F [[c' [t' [E L]]] N]]. inversion E; subst. auto.
+Qed.
+
+(* the language each version's regex denotes (before the end anchor and the length test) *)
+Definition lang (vt : variant) (V : version) : ustring -> bool :=
+  match V with V20 => lang20 | V21 => lang21 (hyph21 vt) end.
 
 Definition end_of (vt : variant) (V : version) : end_mode := match V with V20 => end20 vt | V21 => end21 vt end.
 
-(* repaired anchors: the recogniser is exactly the rule *)
-Lemma type_name_rule_lemma : forall vt V s,
-  end_of vt V = Strict -> (validate_type vt V s = true <-> spec_type_name (sv V) s).
+Lemma validate_type_unfold : forall vt V s,
+  validate_type vt V s =
+  with_end (end_of vt V) (lang vt V) s
+  && (type_len_min <=? List.length s)%nat && (List.length s <=? type_len_max)%nat.
+Proof. intros. destruct V; reflexivity. Qed.
+
+(* which hyphen structure / leading character the recogniser of (vt, V) demands *)
+Definition hyphens_of (vt : variant) (V : version) (s : ustring) : Prop :=
+  match V, hyph21 vt with
+  | V21, AnyHyphens => True
+  | _, _ => no_double_hyphen s
+  end.
+
+Definition leading_of (V : version) (s : ustring) : Prop :=
+  match V with V20 => True | V21 => begins_with_letter s end.
+
+Lemma lang_spec : forall vt V s, (2 <= List.length s)%nat ->
+  (lang vt V s = true <-> Forall type_char s /\ hyphens_of vt V s /\ leading_of V s).
 Proof.
-  intros vt V s E. rewrite validate_type_unfold. fold (end_of vt V). rewrite E.
-  unfold with_end. simpl dollar. rewrite orb_false_r, <- andb_assoc, andb_true_iff, length_bounds.
-  unfold spec_type_name. split.
-  - intros [A B]. apply (lang_spec V s B) in A. destruct A. destruct V; simpl in *; auto.
-  - intros [A [B C]]. split; auto. apply (lang_spec V s B). destruct V; simpl in *; auto.
+  intros vt V s L. unfold lang, hyphens_of, leading_of. destruct V.
+  - rewrite lang20_char by lia. rewrite andb_true_iff, forallb_type_char, ndhb_spec. tauto.
+  - destruct (hyph21 vt); simpl.
+    + rewrite lang21_any_spec. tauto.
+    + rewrite lang21_single_spec. tauto.
 Qed.
 
-(* `$` anchors: exactly the rule, or a name of the rule's language followed by one newline
-   (the newline counting towards the length) *)
-Lemma type_name_rule_dollar_lemma : forall vt V s,
-  end_of vt V = Dollar ->
-  (validate_type vt V s = true <->
-   (3 <= List.length s <= 250)%nat /\ (lang V s = true \/ exists w, s = w ++ [10] /\ lang V w = true)).
+(* the variants whose recogniser is meant to be exactly the rule *)
+Definition strict_type_rule (vt : variant) (V : version) : Prop :=
+  end_of vt V = Strict /\ (V = V21 -> hyph21 vt = SingleHyphens).
+
+Lemma strict_hyphens : forall vt V s, (V = V21 -> hyph21 vt = SingleHyphens) -> (hyphens_of vt V s <-> no_double_hyphen s).
+Proof. intros vt V s H. unfold hyphens_of. destruct V; [tauto|]. rewrite (H eq_refl). tauto. Qed.
+
+Lemma spec_type_name_alt : forall V s,
+  spec_type_name (sv V) s <-> (3 <= List.length s <= 250)%nat /\ Forall type_char s /\ no_double_hyphen s /\ leading_of V s.
+Proof. intros. unfold spec_type_name, leading_of. destruct V; simpl; tauto. Qed.
+
+(* repaired recognisers: exactly the rule *)
+Lemma type_name_rule_lemma : forall vt V s,
+  strict_type_rule vt V -> (validate_type vt V s = true <-> spec_type_name (sv V) s).
 Proof.
-  intros vt V s E. rewrite validate_type_unfold. fold (end_of vt V). rewrite E.
-  unfold with_end. simpl dollar. rewrite <- andb_assoc, andb_true_iff, length_bounds, orb_true_iff. cbn [andb].
+  intros vt V s [E H]. rewrite validate_type_unfold, E.
+  unfold with_end. simpl dollar. rewrite orb_false_r, <- andb_assoc, andb_true_iff, length_bounds.
+  rewrite spec_type_name_alt. split.
+  - intros [A B]. apply (lang_spec vt V s) in A; [|lia]. rewrite (strict_hyphens vt V s H) in A. tauto.
+  - intros [B A]. split; auto. apply (lang_spec vt V s); [lia|]. rewrite (strict_hyphens vt V s H). tauto.
+Qed.
+
+(* every variant: what is accepted is in the language of the regex, or is such a
+   name followed by one newline when the anchor is `$` (the newline counting
+   towards the length) *)
+Lemma type_name_accepted_lemma : forall vt V s,
+  validate_type vt V s = true <->
+  (3 <= List.length s <= 250)%nat /\
+  (lang vt V s = true \/ (end_of vt V = Dollar /\ exists w, s = w ++ [10] /\ lang vt V w = true)).
+Proof.
+  intros vt V s. rewrite validate_type_unfold.
+  unfold with_end. rewrite <- andb_assoc, andb_true_iff, length_bounds, orb_true_iff, andb_true_iff.
   split.
-  - intros [[A | A] B]; split; auto. destruct (strip_nl s) as [w|] eqn:S; [|discriminate].
-    right. exists w. split; auto. apply strip_nl_spec. exact S.
-  - intros [B [A | [w [S A]]]]; split; auto. right. apply strip_nl_spec in S. rewrite S. exact A.
+  - intros [[A | [D A]] B]; split; auto. destruct (strip_nl s) as [w|] eqn:S; [|discriminate].
+    right. split; [destruct (end_of vt V); [reflexivity | discriminate]|].
+    exists w. split; auto. apply strip_nl_spec. exact S.
+  - intros [B [A | [D [w [S A]]]]]; split; auto. right. rewrite D. split; [reflexivity|].
+    apply strip_nl_spec in S. rewrite S. exact A.
 Qed.
 
 Lemma not_type_name_with_newline : forall V w, ~ spec_type_name V (w ++ [10]).
 Proof.
-  intros V w [F _]. rewrite Forall_forall in F. specialize (F 10). 
+  intros V w [F _]. rewrite Forall_forall in F. specialize (F 10).
   assert (type_char 10) by (apply F; rewrite in_app_iff; right; left; reflexivity).
   apply is_type_char_spec in H. discriminate.
 Qed.
@@ -232,25 +286,33 @@ Lemma type_name_rule_dollar_refuted_lemma : forall vt V,
   end_of vt V = Dollar -> exists s, validate_type vt V s = true /\ ~ spec_type_name (sv V) s.
 Proof.
   intros vt V E. exists [97; 98; 99; 10]. split.
-  - rewrite validate_type_unfold. fold (end_of vt V). rewrite E. destruct V; reflexivity.
+  - rewrite validate_type_unfold, E. destruct V; [reflexivity|]. unfold lang. destruct (hyph21 vt); reflexivity.
   - apply (not_type_name_with_newline (sv V) [97; 98; 99]).
 Qed.
 
-(* whatever the anchors: a name that breaks the rule and does not end in a newline is refused *)
-Lemma type_name_refused_lemma : forall vt V s,
-  ~ spec_type_name (sv V) s -> (forall w, s <> w ++ [10]) -> validate_type vt V s = false.
+(* the 2.1 recogniser as found admits consecutive hyphens: "x--d" *)
+Lemma type_name_rule_double_hyphen_refuted_lemma : forall vt,
+  hyph21 vt = AnyHyphens -> exists s, validate_type vt V21 s = true /\ ~ spec_type_name (sv V21) s.
 Proof.
-  intros vt V s NS NN. destruct (validate_type vt V s) eqn:VT; auto. exfalso.
-  destruct (end_of vt V) eqn:E.
-  - apply (type_name_rule_dollar_lemma vt V s E) in VT. destruct VT as [B [A | [w [S _]]]].
-    + apply NS. unfold spec_type_name. apply (lang_spec V s B) in A. destruct A. destruct V; simpl in *; auto.
-    + apply (NN w). exact S.
-  - apply (type_name_rule_lemma vt V s E) in VT. contradiction.
+  intros vt E. exists [120; 45; 45; 100]. split.
+  - rewrite validate_type_unfold. unfold lang. rewrite E. unfold with_end. reflexivity.
+  - intros [_ [_ [N _]]]. simpl in N. destruct N as [_ [N _]]. apply N. split; reflexivity.
 Qed.
 
-(* the 2.1 recogniser does admit consecutive hyphens (a SHOULD NOT of the specification) *)
-Lemma type21_admits_double_hyphen : forall vt, validate_type vt V21 [120; 45; 45; 100] = true.
-Proof. intros. rewrite validate_type_unfold. unfold with_end. reflexivity. Qed.
+(* whatever the variant: a name that breaks the rule is refused, unless it breaks it
+   only by a final newline (`$` anchors) or only by "--" (2.1 regex as found) *)
+Lemma type_name_refused_lemma : forall vt V s,
+  ~ spec_type_name (sv V) s -> (forall w, s <> w ++ [10]) ->
+  (V = V21 -> hyph21 vt = AnyHyphens -> no_double_hyphen s) ->
+  validate_type vt V s = false.
+Proof.
+  intros vt V s NS NN ND. destruct (validate_type vt V s) eqn:VT; auto. exfalso.
+  apply type_name_accepted_lemma in VT. destruct VT as [B [A | [_ [w [S _]]]]].
+  - apply NS. apply spec_type_name_alt. apply (lang_spec vt V s) in A; [|lia].
+    destruct A as [F [H L]]. repeat split; try lia; auto.
+    unfold hyphens_of in H. destruct V; auto. destruct (hyph21 vt) eqn:E; auto.
+  - apply (NN w). exact S.
+Qed.
 
 (* ---------------- the property-name rule ---------------- *)
 
@@ -289,4 +351,179 @@ Proof.
   intros vt V E. exists [97; 66]. (* "aB" *) split.
   - rewrite prop_name_firstchar_lemma by exact E. destruct V; reflexivity.
   - intros [[F | [F L]] _]; [discriminate | simpl in L; lia].
+Qed.
+
+(* ---------------- invalid names are refused and nothing is registered ---------------- *)
+
+(* the name check every decorator performs first *)
+Definition name_check (vt : variant) (q : regreq) : bool :=
+  match r_kind q with
+  | Extensions => validate_ext_name vt (r_ver q) (r_name q)
+  | _ => validate_type vt (r_ver q) (r_name q)
+  end.
+
+Lemma name_check_refused_lemma : forall vt r q,
+  name_check vt q = false -> decorate vt r q = (r, Failed EValue).
+Proof.
+  intros vt r q H. unfold name_check in H. unfold decorate.
+  destruct (r_kind q).
+  - rewrite H. reflexivity.
+  - rewrite H. reflexivity.
+  - unfold register_marking. rewrite H. reflexivity.
+  - unfold register_extension. rewrite H. reflexivity.
+Qed.
+
+(* objects, observables, markings: a type name that breaks the rule is refused, state unchanged *)
+Lemma invalid_type_name_refused_lemma : forall vt r q,
+  strict_type_rule vt (r_ver q) -> r_kind q <> Extensions ->
+  ~ spec_type_name (sv (r_ver q)) (r_name q) ->
+  decorate vt r q = (r, Failed EValue).
+Proof.
+  intros vt r q S K NS. apply name_check_refused_lemma. unfold name_check.
+  destruct (validate_type vt (r_ver q) (r_name q)) eqn:E.
+  - apply (type_name_rule_lemma vt _ _ S) in E. contradiction.
+  - destruct (r_kind q); auto. contradiction.
+Qed.
+
+Lemma ustr_prefix_spec : forall p s, ustr_prefix p s = true <-> exists rest, s = p ++ rest.
+Proof.
+  induction p as [|x p IH]; intros s; simpl.
+  - split; eauto.
+  - destruct s as [|y s'].
+    + split; [discriminate | intros [rest F]; discriminate].
+    + rewrite andb_true_iff, N.eqb_eq, IH. split.
+      * intros [-> [rest ->]]. eauto.
+      * intros [rest F]. inversion F; subst. eauto.
+Qed.
+
+Lemma skipn_app_exact : forall {A} (p rest : list A), skipn (List.length p) (p ++ rest) = rest.
+Proof. induction p; simpl; auto. Qed.
+
+(* names of extensions, repaired _register_extension: a type name, or in 2.1 the ID of an
+   extension definition over the characters of type names, at most 250 characters long *)
+Definition spec_ext_name (V : version) (n : ustring) : Prop :=
+  (V = V21 /\ exists rest, n = s_extdef ++ rest /\ Forall type_char rest /\ (List.length n <= 250)%nat)
+  \/ ((V = V21 -> ustr_prefix s_extdef n = false) /\ spec_type_name (sv V) n).
+
+Lemma ext_name_rule_lemma : forall vt V n,
+  strict_type_rule vt V -> extid vt = OwnRegex ->
+  (validate_ext_name vt V n = true <-> spec_ext_name V n).
+Proof.
+  intros vt V n S X. unfold validate_ext_name, spec_ext_name. rewrite X. destruct V.
+  - rewrite (type_name_rule_lemma vt V20 n S). split.
+    + intros H. right. split; [discriminate | exact H].
+    + intros [[F _] | [_ H]]; [discriminate | exact H].
+  - destruct (ustr_prefix s_extdef n) eqn:P.
+    + apply ustr_prefix_spec in P. destruct P as [rest ->].
+      rewrite skipn_app_exact, andb_true_iff, forallb_type_char, Nat.leb_le. unfold type_len_max. split.
+      * intros [F L]. left. split; auto. exists rest. auto.
+      * intros [[_ [rest' [E [F L]]]] | [H _]].
+        -- apply app_inv_head in E. subst. auto.
+        -- specialize (H eq_refl).
+           assert (ustr_prefix s_extdef (s_extdef ++ rest) = true) by (apply ustr_prefix_spec; eauto). congruence.
+    + rewrite (type_name_rule_lemma vt V21 n S). split.
+      * intros H. right. auto.
+      * intros [[_ [rest [E _]]] | [_ H]]; auto.
+        assert (ustr_prefix s_extdef n = true) by (apply ustr_prefix_spec; eauto). congruence.
+Qed.
+
+Lemma invalid_ext_name_refused_lemma : forall vt r q,
+  strict_type_rule vt (r_ver q) -> extid vt = OwnRegex -> r_kind q = Extensions ->
+  ~ spec_ext_name (r_ver q) (r_name q) ->
+  decorate vt r q = (r, Failed EValue).
+Proof.
+  intros vt r q S X K NS. apply name_check_refused_lemma. unfold name_check. rewrite K.
+  destruct (validate_ext_name vt (r_ver q) (r_name q)) eqn:E; auto.
+  apply (ext_name_rule_lemma vt _ _ S X) in E. contradiction.
+Qed.
+
+(* ---------------- property names ---------------- *)
+
+Lemma dict_set_keys : forall d k v k', In k' (map fst (dict_set d k v)) <-> k' = k \/ In k' (map fst d).
+Proof.
+  induction d as [|[k0 v0] d IH]; intros; simpl.
+  - split; intros [H | H]; auto; contradiction.
+  - destruct (ustr_eqb k k0) eqn:E; simpl.
+    + apply ustr_eqb_eq in E. subst. split; intros H; intuition (subst; auto).
+    + rewrite IH. tauto.
+Qed.
+
+Lemma dict_update_keys : forall pairs d k',
+  In k' (map fst (dict_update d pairs)) <-> In k' (map fst d) \/ In k' (map fst pairs).
+Proof.
+  unfold dict_update. induction pairs as [|[k v] pairs IH]; intros; simpl.
+  - tauto.
+  - rewrite IH, dict_set_keys. simpl. split; intros H; intuition.
+Qed.
+
+Lemma dict_of_pairs_keys : forall pairs k', In k' (map fst (dict_of_pairs pairs)) <-> In k' (map fst pairs).
+Proof. intros. unfold dict_of_pairs. rewrite dict_update_keys. simpl. tauto. Qed.
+
+Lemma validate_props_bad_key : forall vt V o d n,
+  In n (map fst d) -> validate_prop_name vt V n = false -> validate_props vt V o d = false.
+Proof.
+  intros vt V o d n I H. unfold validate_props. apply andb_false_iff. left.
+  destruct (forallb (fun kv => validate_prop_name vt V (fst kv)) d) eqn:F; auto.
+  rewrite forallb_forall in F. apply in_map_iff in I. destruct I as [[k v] [E I]]. simpl in E. subst.
+  specialize (F _ I). simpl in F. congruence.
+Qed.
+
+Lemma in_fst : forall {A B} (l : list (A * B)) a b, In (a, b) l -> In a (map fst l).
+Proof. intros. apply in_map_iff. exists (a, b). auto. Qed.
+
+Lemma object_props_keys : forall V user n k, In (n, k) user -> In n (map fst (object_props V user)).
+Proof.
+  intros V user n k I. unfold object_props.
+  assert (H : In (n, k) (filter (fun kv => negb (starts_x kv)) user) \/ In (n, k) (filter starts_x user)).
+  { rewrite !filter_In. destruct (starts_x (n, k)); simpl; auto. }
+  destruct V; rewrite !map_app, !in_app_iff; destruct H as [H | H]; apply in_fst in H; auto.
+Qed.
+
+Lemma observable_props_keys : forall V user n k, In (n, k) user -> In n (map fst (observable_props V user)).
+Proof.
+  intros V user n k I. unfold observable_props. apply in_fst in I.
+  destruct V; rewrite !map_app, !in_app_iff; auto.
+Qed.
+
+Lemma finish_raise : forall r0 e, finish r0 (Raise e) = (r0, Failed e).
+Proof. reflexivity. Qed.
+
+(* a user property whose name the recogniser refuses: the decorator fails *)
+Lemma bad_prop_name_fails : forall vt r q n k,
+  In (n, k) (r_props q) -> validate_prop_name vt (r_ver q) n = false ->
+  exists e, snd (decorate vt r q) = Failed e.
+Proof.
+  intros vt r q n k I B. unfold decorate. destruct (r_kind q).
+  - destruct (negb (validate_type vt (r_ver q) (r_name q))); [simpl; eauto|].
+    destruct (with_extension_name vt r (r_ver q) (r_extname q) XNewSdo) as [r1 [|e]]; [|simpl; eauto].
+    unfold register_object.
+    rewrite (validate_props_bad_key vt (r_ver q) false _ n); [simpl; eauto | | exact B].
+    apply dict_of_pairs_keys. eapply object_props_keys. exact I.
+  - destruct (negb (validate_type vt (r_ver q) (r_name q))); [simpl; eauto|].
+    destruct (with_extension_name vt r (r_ver q) (r_extname q) XNewSco) as [r1 [|e]]; [|simpl; eauto].
+    unfold register_observable.
+    rewrite (validate_props_bad_key vt (r_ver q) _ _ n); [simpl; eauto | | exact B].
+    apply dict_of_pairs_keys. eapply observable_props_keys. exact I.
+  - unfold register_marking.
+    destruct (negb (validate_type vt (r_ver q) (r_name q))); [simpl; eauto|].
+    rewrite (validate_props_bad_key vt (r_ver q) false _ n); [simpl; eauto | | exact B].
+    apply dict_of_pairs_keys. eapply in_fst. exact I.
+  - unfold register_extension.
+    destruct (negb (validate_ext_name vt (r_ver q) (r_name q))); [simpl; eauto|].
+    destruct (version_eqb (r_ver q) V21 && _); [simpl; eauto|].
+    destruct (is_nil _ || _); [simpl; eauto|].
+    rewrite (validate_props_bad_key vt (r_ver q) false _ n); [simpl; eauto | | exact B].
+    apply in_fst in I. apply dict_of_pairs_keys in I.
+    destruct (r_exttype q) as [[| | | |]|]; apply dict_update_keys; simpl;
+      try (left; apply dict_update_keys; right; exact I);
+      try (right; exact I); try (left; exact I).
+Qed.
+
+Lemma invalid_prop_name_refused_lemma : forall vt r q n k,
+  pmode vt = FullRule -> In (n, k) (r_props q) -> ~ spec_prop_name (sv (r_ver q)) n ->
+  exists e, snd (decorate vt r q) = Failed e.
+Proof.
+  intros vt r q n k P I NS. apply (bad_prop_name_fails vt r q n k I).
+  destruct (validate_prop_name vt (r_ver q) n) eqn:E; auto.
+  apply (prop_name_rule_lemma vt _ _ P) in E. contradiction.
 Qed.
